@@ -1,9 +1,215 @@
-(* C05 - statements (preliminary) *)
-From Coq Require Import QArith List String Bool.
+(* C05 - Meat and milk offered to the optimiser match the simulated herds and feed.
+   Statements only; proofs live in Proofs/MeatDairy.v; the model is Model/MeatDairy.v (tied to
+   src/food_system/meat_and_dairy.py, animal_populations.py, src/optimizer/parameters.py and
+   src/scenarios/run_scenario.py by the correspondence checks of harness/props/c05.py).
+
+   Reading guide: a herd is the list of animal objects of one CalculateFeedAndMeat instance (type, size, monthly
+   slaughter list, monthly population list); [wf n herd] says all those lists have n months (the real code raises
+   otherwise); [at_most_one is_chicken], [at_most_one is_pig]: the species tables list each species once (with two
+   "chicken" entries the code keeps only the last one - see c05_duplicate_chicken_overwrites). *)
+From Coq Require Import QArith List String Bool Lqa Lia.
 From Allfed Require Import Base.StrUtil Model.MeatDairy Proofs.MeatDairy.
 Import ListNotations.
 Open Scope Q_scope.
+Open Scope string_scope.
 
-Theorem c05_running_length : forall l, List.length (running l) = List.length l.
-Proof. intro l. exact (running_from_length 0 l). Qed.
-Print Assumptions c05_running_length.
+(* per-head yields (billion kcals per head) as initialize_this_country_animal_kcals computes them *)
+Theorem c05_yields : forall kg_chicken kg_pig custom,
+  let y := init_animal_kcals kg_chicken kg_pig custom in
+  KPC y == kg_chicken * 1525 / 1000000000 /\
+  KPP y == kg_pig * 3590 / 1000000000 /\
+  KPS y == (236 # 100) * 1525 / 1000000000 /\
+  KPM y == (246 # 10) * 3590 / 1000000000 /\
+  KPL y == (match custom with Some k => k | None => 2697 # 10 end) * 2750 / 1000000000.
+Proof.
+  intros. unfold y, init_animal_kcals, kg_per_large; simpl.
+  unfold SMALL_ANIMAL_KCALS_PER_KG, MEDIUM_ANIMAL_KCALS_PER_KG, LARGE_ANIMAL_KCALS_PER_KG, KG_PER_SMALL_ANIMAL,
+    KG_PER_MEDIUM_ANIMAL, KG_PER_LARGE_ANIMAL_DEFAULT, E9.
+  repeat split; try (destruct custom); field.
+Qed.
+Print Assumptions c05_yields.
+
+(* every month: meat offered = (sum over ALL species of heads slaughtered x that species' per-head yield)
+   x (1 - distribution waste/100); for every herd, yields, waste, horizon *)
+Theorem c05_meat_monthly : forall n y dist herd m,
+  herd <> [] -> wf n herd -> at_most_one is_chicken herd -> at_most_one is_pig herd -> (m < n)%nat ->
+  nth m (mo_monthly (meat_from_herd y dist herd)) 0 == herd_energy y herd m * (1 - dist / 100).
+Proof. exact meat_monthly. Qed.
+Print Assumptions c05_meat_monthly.
+
+(* the running total handed to the optimiser is the cumulative sum of the monthly series (any series) *)
+Theorem c05_meat_running : forall l m, (m < List.length l)%nat ->
+  List.length (running l) = List.length l /\ nth m (running l) 0 == sum_first (S m) l.
+Proof. intros l m H. split. apply running_from_length. apply running_nth; exact H. Qed.
+Print Assumptions c05_meat_running.
+
+(* meat_summed_consumption = sum of the monthly series = last running value *)
+Theorem c05_meat_total : forall n y dist herd,
+  herd <> [] -> wf n herd -> at_most_one is_chicken herd -> at_most_one is_pig herd -> (0 < n)%nat ->
+  let r := meat_from_herd y dist herd in
+  mo_summed r == qsum (mo_monthly r) /\ nth (n - 1) (mo_running r) 0 == mo_summed r.
+Proof.
+  intros n y dist herd Hne Hw Hc Hp Hn r.
+  assert (S := meat_summed_spec n y dist herd Hne Hw Hc Hp).
+  assert (L := meat_monthly_length n y dist herd Hne Hw Hc Hp).
+  split. exact S.
+  unfold r in *. unfold meat_from_herd at 1. cbn [mo_running].
+  fold (mo_monthly (meat_from_herd y dist herd)).
+  rewrite <- L at 1. rewrite running_last by (rewrite L; exact Hn). symmetry; exact S.
+Qed.
+Print Assumptions c05_meat_total.
+
+(* linearity for arbitrary class series of a common length (no herd needed) *)
+Theorem c05_meat_total_any_series : forall n y dist c, wfc n c -> qsum (each_month_meat y dist c) == meat_summed y dist c.
+Proof. intros n y dist c H. exact (meat_summed_is_sum y dist c n H). Qed.
+Print Assumptions c05_meat_total_any_series.
+
+(* milk: dairy population (all species whose type contains "milk") x yield, unit conversions, both wastes;
+   nothing when ADD_MILK is off *)
+Theorem c05_milk : forall n add yield dist retail herd m, herd <> [] -> wf n herd -> (m < n)%nat ->
+  nth m (milk_kcals add yield dist retail herd) 0 ==
+  if add then sumby a_population milk_bearing herd m * yield / 12 / 1000 * 1000 * 610 / 1000000000
+              * (1 - dist / 100) * (1 - retail / 100)
+  else 0.
+Proof.
+  intros n add yield dist retail herd m Hne Hw Hm.
+  destruct (dairy_population_spec n herd m Hne Hw) as (L & S).
+  rewrite milk_nth by lia. destruct add; [|reflexivity]. rewrite S. reflexivity.
+Qed.
+Print Assumptions c05_milk.
+
+(* feed-maximising round: ANY re-timing of the monthly series that keeps its sum offers, in total (last running value
+   and meat_summed_consumption, which is not re-timed), exactly the herd's total *)
+Theorem c05_round2_total : forall n y dist herd retimed,
+  herd <> [] -> wf n herd -> at_most_one is_chicken herd -> at_most_one is_pig herd -> (0 < n)%nat ->
+  List.length retimed = n ->
+  qsum retimed == qsum (mo_monthly (meat_from_herd y dist herd)) ->
+  nth (n - 1) (running retimed) 0 == mo_summed (meat_from_herd y dist herd).
+Proof.
+  intros n y dist herd retimed Hne Hw Hc Hp Hn HL HS.
+  rewrite <- HL at 1. rewrite running_last by lia. rewrite HS.
+  symmetry. exact (meat_summed_spec n y dist herd Hne Hw Hc Hp).
+Qed.
+Print Assumptions c05_round2_total.
+
+(* the herds never eat more grass or feed than is available in the month (any priority list, any requirements) *)
+Theorem c05_supplies_bound : forall es grass feed, eaters_ok es -> 0 <= grass -> 0 <= feed ->
+  month_grass_used es grass feed <= grass /\ month_feed_used es grass feed <= feed /\
+  (reqs_nonneg es -> 0 <= month_grass_used es grass feed /\ 0 <= month_feed_used es grass feed).
+Proof.
+  intros es grass feed Hok Hg Hf. destruct (used_le_available es grass feed Hok Hg Hf) as (A & B).
+  split; [exact A|]. split; [exact B|]. intro Hr. exact (used_nonneg es grass feed Hok Hr Hg Hf).
+Qed.
+Print Assumptions c05_supplies_bound.
+
+(* final round: the feed charged against human-edible food is never less than what the herds ate, month by month,
+   for ALL inputs of the top-up (no hypothesis) *)
+Theorem c05_feed_charged : forall round1_was_run es grass feed bump,
+  month_feed_used es grass feed <= charge_month round1_was_run (month_feed_used es grass feed) bump.
+Proof. intros. apply charge_ge_eaten. Qed.
+Print Assumptions c05_feed_charged.
+
+(* a month that charges no feed had herds that ate no feed *)
+Theorem c05_zero_charge_nothing_eaten : forall round1_was_run es grass feed bump,
+  eaters_ok es -> reqs_nonneg es -> 0 <= grass -> 0 <= feed ->
+  charge_month round1_was_run (month_feed_used es grass feed) bump == 0 ->
+  month_feed_used es grass feed == 0.
+Proof.
+  intros r1 es grass feed b Hok Hr Hg Hf Hz.
+  pose proof (charge_ge_eaten r1 (month_feed_used es grass feed) b).
+  destruct (used_nonneg es grass feed Hok Hr Hg Hf). lra.
+Qed.
+Print Assumptions c05_zero_charge_nothing_eaten.
+
+(* round decision tree: the final round simulates new herds exactly when resources exist, demand is non-zero and
+   round 2 was not aborted; those herds are run on the round-2 allocation x 0.999999999 *)
+Theorem c05_round_tree : forall t n feed2 m,
+  (round3_source t = NewRound3 <->
+   any_resource t = true /\ demand_zero t = false /\ round2_aborts t = false) /\
+  (round3_source t = NewRound3 -> nth m (herd_feed_round3 t n feed2) 0 == nth m feed2 0 * (999999999 # 1000000000)) /\
+  (round3_source t = ReuseRound1 -> nth m (herd_feed_round3 t n feed2) 0 == 0).
+Proof.
+  intros t n feed2 m. split. apply round3_source_new. split.
+  - intro H. unfold herd_feed_round3. rewrite H. apply round3_available_nth.
+  - intro H. unfold herd_feed_round3. rewrite H. rewrite zeros_nth. reflexivity.
+Qed.
+Print Assumptions c05_round_tree.
+
+(* both skip branches (no feed round at all / round 2 aborted): the final round reuses the zero-feed herds of round 1,
+   they eat no feed, and no feed is charged - whatever the ceilings handed to the top-up *)
+Theorem c05_skip_branch_no_feed : forall t n feed2 m es grass k const meat bump,
+  round2_consts_present t = false ->
+  eaters_ok es -> 0 <= grass -> 0 < k -> 0 <= const ->
+  b_increase bump == increase_of k const meat meat ->      (* meat3 = meat1: same herd object *)
+  let avail := nth m (herd_feed_round3 t n feed2) 0 in
+  avail == 0 /\ month_feed_used es grass avail == 0 /\
+  charge_month (round1_run t) (month_feed_used es grass avail) bump == 0.
+Proof.
+  intros t n feed2 m es grass k const meat bump Hs Hok Hg Hk Hc Hi avail.
+  assert (A : avail = 0) by (apply skip_branch_zero_feed; exact Hs).
+  rewrite A. split. reflexivity.
+  assert (E := no_feed_none_eaten es grass Hok Hg). split. exact E.
+  apply (charge_month_proper _ _ 0); [exact E| |reflexivity].
+  rewrite Hi. apply increase_of_same; assumption.
+Qed.
+Print Assumptions c05_skip_branch_no_feed.
+
+(* odd behaviour of the code as it is: a second "chicken" entry REPLACES the first one (assignment, not addition);
+   outside the audited domain because the species tables list each species once *)
+Definition two_chickens : list animal :=
+  [ {| a_type := "chicken"; a_size := "small"; a_slaughter := [100]; a_population := [0] |};
+    {| a_type := "chicken"; a_size := "small"; a_slaughter := [7]; a_population := [0] |} ].
+Theorem c05_duplicate_chicken_overwrites :
+  wf 1 two_chickens /\
+  let y := init_animal_kcals 2 90 None in
+  ~ nth 0 (mo_monthly (meat_from_herd y 0 two_chickens)) 0 == herd_energy y two_chickens 0 * (1 - 0 / 100).
+Proof.
+  split. repeat constructor.
+  vm_compute. intro H. discriminate H.
+Qed.
+Print Assumptions c05_duplicate_chicken_overwrites.
+
+(* ------------------------------------------------------------------ non-vacuity *)
+Definition ex_herd : list animal :=
+  [ {| a_type := "chicken"; a_size := "small"; a_slaughter := [1000; 2000]; a_population := [5000; 4000] |};
+    {| a_type := "milk_cattle"; a_size := "large"; a_slaughter := [10; 20]; a_population := [300; 280] |};
+    {| a_type := "pig"; a_size := "medium"; a_slaughter := [50; 0]; a_population := [100; 50] |};
+    {| a_type := "meat_goat"; a_size := "medium"; a_slaughter := [8; 8]; a_population := [64; 56] |};
+    {| a_type := "milk_goat"; a_size := "medium"; a_slaughter := [1; 1]; a_population := [20; 19] |};
+    {| a_type := "rabbit"; a_size := "small"; a_slaughter := [3; 4]; a_population := [12; 8] |} ].
+
+Example ex_herd_hyps : ex_herd <> [] /\ wf 2 ex_herd /\ at_most_one is_chicken ex_herd /\ at_most_one is_pig ex_herd /\
+                       lengths_ok ex_herd = true.
+Proof.
+  split. discriminate. split. repeat constructor. split. vm_compute; lia. split. vm_compute; lia. reflexivity.
+Qed.
+
+(* the offered values are not trivially zero: month 1, 12 % distribution waste *)
+Example ex_herd_values :
+  let r := meat_from_herd (init_animal_kcals (165 # 100) 86 None) 12 ex_herd in
+  0 < nth 1 (mo_monthly r) 0 /\ nth 1 (mo_running r) 0 == mo_summed r /\
+  0 < nth 1 (milk_kcals true 1000 1 30 ex_herd) 0 /\ nth 1 (milk_kcals false 1000 1 30 ex_herd) 0 == 0 /\
+  sumby a_population milk_bearing ex_herd 1 == 299.
+Proof. vm_compute. repeat split; discriminate. Qed.
+
+(* feeding: hypotheses satisfiable, herds do eat, and the top-up can raise the charge strictly above what was eaten *)
+Definition ex_eaters : list eater :=
+  [ {| e_req := 30; e_ruminant := true; e_eg := 6 # 10; e_ef := 8 # 10 |};
+    {| e_req := 16; e_ruminant := false; e_eg := 6 # 10; e_ef := 8 # 10 |} ].
+Example ex_feed :
+  eaters_ok ex_eaters /\ reqs_nonneg ex_eaters /\
+  month_grass_used ex_eaters 40 100 == 40 /\ month_feed_used ex_eaters 40 100 == (55 # 2) /\
+  month_feed_used ex_eaters 40 100 <
+    charge_month true (month_feed_used ex_eaters 40 100)
+      {| b_biofuel := 0; b_increase := 5; b_max_biofuel := 0; b_max_feed := 100; b_total_crops := 1000 |}.
+Proof.
+  split. repeat constructor. split. repeat constructor; discriminate.
+  vm_compute. repeat split; try discriminate.
+Qed.
+
+Example ex_tree :
+  round3_source {| any_resource := true; demand_zero := false; round2_aborts := false |} = NewRound3 /\
+  round3_source {| any_resource := true; demand_zero := false; round2_aborts := true |} = ReuseRound1 /\
+  round3_source {| any_resource := true; demand_zero := true; round2_aborts := false |} = ReuseRound1 /\
+  round3_source {| any_resource := false; demand_zero := false; round2_aborts := false |} = ReuseRound1.
+Proof. repeat split. Qed.
